@@ -7,7 +7,7 @@ correspondence (same op lines through the real code and through the model, outpu
 (4) on any broken obligation or disagreement search for / report a concrete failing input,
 (5) write evidence/<id>.json.  Exit 0 = held on everything explored, 1 = VIOLATION, 2 = infrastructure.
 """
-import sys, os, json, time, subprocess, random, hashlib, re, importlib, tempfile, shutil, itertools
+import sys, os, json, time, subprocess, random, hashlib, re, importlib, tempfile, shutil, itertools, atexit
 
 ROOT = os.path.dirname(os.path.abspath(__file__))
 LEAN = os.path.join(ROOT, 'lean')
@@ -196,11 +196,19 @@ def regenerate_facts():
 
 # ---------------------------------------------------------------- Go side
 
+_BUILT = []
+
+
 def build_harness(race=False):
-    out = os.path.join(BUILD, 'harness-race' if race else 'harness')
+    # one binary per invocation of this script (build/harness.<pid>): checks of several properties may run at the same time, and one of them
+    # must never delete or rewrite the file another one is executing
+    out = os.path.join(BUILD, ('harness-race' if race else 'harness') + f'.{os.getpid()}')
     os.makedirs(BUILD, exist_ok=True)
     if os.path.exists(out):
         os.remove(out)
+    if not _BUILT:
+        atexit.register(lambda: [os.path.exists(f) and os.remove(f) for f in _BUILT])
+    _BUILT.append(out)
     cmd = [os.path.join(ROOT, 'harness', 'build.sh'), out] + (['-race'] if race else [])
     r = run(cmd, env=GOENV)
     if r.returncode != 0 or not os.path.exists(out):
@@ -208,11 +216,10 @@ def build_harness(race=False):
     return out, ''
 
 
-def limit_as():
-    # address-space cap for harness processes: a parser that trusts a declared length dies with Go's fatal
-    # "out of memory" (reported as 'crash') instead of taking the machine down
-    import resource
-    resource.setrlimit(resource.RLIMIT_AS, (12 << 30, 12 << 30))
+# address-space cap for harness processes (ulimit -v, KiB): a parser that trusts a declared length dies with Go's fatal "out of memory"
+# (reported as 'crash') instead of taking the machine down. Set by a shell wrapper, not by preexec_fn: some families start harness
+# processes from several threads, where running Python code between fork and exec is not safe.
+LIMIT_WRAPPER = ['/bin/sh', '-c', f'ulimit -v {12 << 20}; exec "$0" "$@"']
 
 
 def run_lines(binary, lines, nproc=8, env=None, timeout=3600):
@@ -227,7 +234,7 @@ def run_lines(binary, lines, nproc=8, env=None, timeout=3600):
     for ch in chunks:
         tf = tempfile.TemporaryFile('w+')
         tf.write('\n'.join(ch) + '\n'); tf.flush(); tf.seek(0)
-        p = subprocess.Popen([binary], stdin=tf, stdout=subprocess.PIPE, stderr=subprocess.PIPE, text=True, env=env, preexec_fn=limit_as if env else None)
+        p = subprocess.Popen((LIMIT_WRAPPER if env else []) + [binary], stdin=tf, stdout=subprocess.PIPE, stderr=subprocess.PIPE, text=True, env=env)
         procs.append((p, tf))
     res = {}
     for p, tf in procs:
@@ -236,6 +243,9 @@ def run_lines(binary, lines, nproc=8, env=None, timeout=3600):
         except subprocess.TimeoutExpired:
             p.kill(); out, err = p.communicate()
         tf.close()
+        if not out.endswith('\n'):
+            # the process died while writing: its last line is cut short and is not a result (the op counts as missing and is re-run)
+            out = out[:out.rfind('\n') + 1]
         for l in out.splitlines():
             sp = l.split(' ', 1)
             if len(sp) == 2:
@@ -253,6 +263,8 @@ class Ctx:
         self.tier, self.rng, self.hbin, self.model_ok = tier, rng, hbin, model_ok
         self.records = []      # (op, go result, model result) of compared ops
         self.infra = []
+        self.confirm_ms = {}   # record -> watchdog (ms) for the confirming re-run of a 'timeout' / 'crash' answer, where the default is too short
+        self.full_op = {}      # abbreviated record -> the op line it stands for (Go-only families with very long arguments)
         self.limit = limit
         self.goenv = dict(os.environ, VERIF_OP_TIMEOUT_MS=os.environ.get('VERIF_OP_TIMEOUT_MS', '4000'), GOMEMLIMIT='4GiB')
 
@@ -280,7 +292,15 @@ class Ctx:
     def model(self, ops):
         if not self.model_ok:
             return [None] * len(ops)
-        r = run_lines(model_bin(), [f'{k} {op}' for k, op in enumerate(ops)], 16)
+        lines = [f'{k} {op}' for k, op in enumerate(ops)]
+        r = run_lines(model_bin(), lines, 16)
+        # a driver process that died loses the rest of its chunk: what is missing is run again, at the end one op per process
+        missing = [k for k in range(len(ops)) if str(k) not in r]
+        if len(missing) > 32:
+            r.update(run_lines(model_bin(), [lines[k] for k in missing], 16))
+            missing = [k for k in missing if str(k) not in r]
+        for k in missing[:64]:
+            r.update(run_lines(model_bin(), [lines[k]], 1, timeout=600))
         return [r.get(str(k)) for k in range(len(ops))]
 
     def go_race(self, ops, timeout=1800):
@@ -323,6 +343,38 @@ def load_known():
 
 
 # ---------------------------------------------------------------- main flow
+
+RESOURCE_OUTCOMES = ('timeout', 'crash')
+
+
+def confirm_resource_outcomes(pid, gen, hbin, ctx, disagreements, notes):
+    """A harness answer 'timeout' (the per-op watchdog) or 'crash' (the process died) says that the op did not finish THERE AND THEN: on a
+    machine that is busy, short of memory or freshly restored that happens to code that is fine. Before such an answer counts, the op is run
+    again alone (nothing else running, a fresh process) under ten times the watchdog. Code that hangs, blows up or dies on that input does so
+    again and is reported. The re-run can only CLEAR the outcome, and only when the op now completes with exactly the expected answer; in
+    every other case the original record stands. Only these two outcomes are re-run: a value that differs is never given a second chance
+    (state leaking between the ops of one process is a violation of its own)."""
+    out, confirmed = [], 0
+    base = int(ctx.goenv.get('VERIF_OP_TIMEOUT_MS', '4000'))
+    long_ms = max(10 * base, 60000)
+    env = dict(ctx.goenv, VERIF_OP_TIMEOUT_MS=str(long_ms))
+    t0 = time.time()
+    for op, g, m in disagreements:
+        # bounded: after three confirmed outcomes, or four minutes, whatever is left stands as it is (it is reported, not cleared)
+        if g not in RESOURCE_OUTCOMES or confirmed >= 3 or time.time() - t0 > 240:
+            out.append((op, g, m)); continue
+        full = ctx.full_op.get(op, op)          # families that record an abbreviated op line keep the real one here
+        ms = max(long_ms, ctx.confirm_ms.get(op, 0))          # families moving tens of MiB per op ask for more
+        g2 = run_lines(hbin, ['0 ' + full], 1, env=dict(env, VERIF_OP_TIMEOUT_MS=str(ms)), timeout=ms / 1000 + 60).get('0', 'crash')
+        if g2 not in RESOURCE_OUTCOMES and g2 != 'bad-op' and gen.agree(op, g2, m):
+            notes.append(f'{g} not confirmed (run alone under a {ms // 1000} s watchdog the op completes with the expected answer): {op[:160]}')
+            log(f'[{pid}] {notes[-1]}')
+            continue
+        if g2 in RESOURCE_OUTCOMES:
+            confirmed += 1
+        out.append((op, g, m))
+    return out
+
 
 def write_replay(pid, payload):
     d = os.path.join(ROOT, 'replays')
@@ -423,7 +475,21 @@ def main():
                 if l and not l.startswith('#'):
                     corpus.append(l)
     if corpus:
-        ctx.both(corpus)
+        # ops of a family that moves tens of MiB per op (SLOW_OPS of the generator module: op name -> watchdog in ms) run under that family's
+        # watchdog here too, not under the default one
+        slow = getattr(gen, 'SLOW_OPS', {})
+        ctx.both([l for l in corpus if l.split(' ')[0] not in slow])
+        for name, ms in slow.items():
+            sel = [l for l in corpus if l.split(' ')[0] == name]
+            if sel:
+                goenv = ctx.goenv
+                ctx.goenv = dict(goenv, VERIF_OP_TIMEOUT_MS=str(max(ms, int(goenv.get('VERIF_OP_TIMEOUT_MS', '4000')))))
+                try:
+                    ctx.both(sel)
+                finally:
+                    ctx.goenv = goenv
+                for l in sel:
+                    ctx.confirm_ms[l] = 10 * ms
     def one_pass():
         if hasattr(gen, 'run'):
             gen.run(ctx)
@@ -442,6 +508,7 @@ def main():
     ops = [r[0] for r in ctx.records]
     infra = list(ctx.infra)
     disagreements = []
+    notes = []
     classes = {}
     distinct = set()
     for op, g, m in ctx.records:
@@ -460,6 +527,8 @@ def main():
                 distinct.add(hashlib.sha1(op.encode()).digest()[:8])
         if hbin and model_ok and not gen.agree(op, g, m):
             disagreements.append((op, g, m))
+    if disagreements and hbin:
+        disagreements = confirm_resource_outcomes(pid, gen, hbin, ctx, disagreements, notes)
     known = load_known()
     for op, g, m in disagreements[:]:
         site = gen.finding_site(op, g, m) if hasattr(gen, 'finding_site') else None
@@ -490,6 +559,7 @@ def main():
                                    seed=seed, tier=tier, theorem=(lean.get('theorems') or gen.THEOREMS),
                                    explanation=gen.explain(sop, sg, sm)))
         violations.append((p, ''))
+        log(f'[{pid}] disagreement: op [{sop[:300]}] real code [{sg[:200]}] model [{sm[:200]}]')
     if not lean['ok'] or not hbin:
         what = lean['failures'] if not lean['ok'] else ['correspondence harness no longer compiles against /repo: ' + herr[-600:]]
         if not violations:
@@ -514,7 +584,8 @@ def main():
                                            note='no concrete failing input found by the directed search'))
                 violations.append((p, ' no-failing-input-found'))
     write_evidence(pid, tier, seed, lean, ops, classes, distinct, len(violations), t0, gen,
-                   extra={'disagreements_checked': len(disagreements), 'known_findings_hit': len(known_hits), 'corpus_ops': len(corpus), 'generator_passes': passes})
+                   extra={'disagreements_checked': len(disagreements), 'known_findings_hit': len(known_hits), 'corpus_ops': len(corpus), 'generator_passes': passes,
+                          'resource_outcomes_not_confirmed': notes[:20]})
     for p, suffix in violations:
         print(f'VIOLATION property={pid} replay={p}{suffix}')
     sys.exit(1 if violations else 0)
